@@ -1,7 +1,9 @@
 (* C02 - an elided amount is inferred as the exact negation of the rest.
    Property theorems only; proofs in Proofs/XactProofs.v.  See Properties_C01.v for the names. *)
 From LedgerV Require Import Base.Prelude Base.Round Model.Amount Model.Xact
-  Proofs.AmountProofs Proofs.XactProofs Proofs.GainLossProofs Gen.SourceGuards Model.PostLine Proofs.PostLineProofs.
+  Proofs.AmountProofs Proofs.XactProofs Proofs.GainLossProofs Gen.SourceGuards Model.PostLine Proofs.PostLineProofs
+  Gen.NullFill Model.XactBase Proofs.OrderProofs Proofs.XactBaseProofs.
+From Coq Require Import Permutation Sorting.Sorted.
 Local Open Scope Q_scope.
 
 (* a transaction with exactly one elided amount (index i found by the scan) is completed by
@@ -148,3 +150,146 @@ Proof. exact gap_forms_agree. Qed.
 Theorem model_transcribes_current_source : forallb (fun b => b) src_guards_C02 = true.
 Proof. vm_compute. reflexivity. Qed.
 Print Assumptions model_transcribes_current_source.
+
+(* ---------------------------------------------------------------------------------------------------------------
+   The completed transaction SUMS TO ZERO, exactly, commodity by commodity, at cost basis (bsum: the postings that
+   must balance, cost where there is one, else amount - no display precision, no rounding anywhere). *)
+Theorem completed_transaction_sums_to_zero : forall ord ps bal i amts c,
+  scan_posts ord ps 0 VVoid None = Ok (bal, Some i) ->
+  fill_amounts bal = Ok amts ->
+  bsum (fill_null ps i amts) c == 0.
+Proof. exact filled_sums_to_zero. Qed.
+Print Assumptions completed_transaction_sums_to_zero.
+
+Theorem accepted_with_elided_amount_sums_to_zero : forall ord cp ps bal i ps' c,
+  wf_costs ps ->
+  scan_posts ord ps 0 VVoid None = Ok (bal, Some i) ->
+  finalize ord cp None ps = Ok (Accepted ps') ->
+  bsum ps' c == 0.
+Proof. exact dated_null_fill_sums_to_zero. Qed.
+Print Assumptions accepted_with_elided_amount_sums_to_zero.
+
+(* the index the scan reports IS an amount-less posting that must balance (no amount, no cost) *)
+Theorem scan_finds_the_elided_posting : forall ord ps bal i,
+  scan_posts ord ps 0 VVoid None = Ok (bal, Some i) ->
+  (i < length ps)%nat /\ is_null_post (nth i ps dpost) = true.
+Proof. exact scan_null_index_is_null_post. Qed.
+Print Assumptions scan_finds_the_elided_posting.
+
+(* the inferred postings, all of them: the written postings come first, unchanged but for the elided one, and what
+   follows is EXACTLY one generated posting per further amount - the elided posting's account and kind, the negated
+   amount, no cost, flags calculated+generated *)
+Theorem inferred_postings_are_exactly_these : forall ps i a rest,
+  firstn (length ps) (fill_null ps i (a :: rest)) = set_null ps i (amt_neg a) /\
+  skipn (length ps) (fill_null ps i (a :: rest)) =
+  map (fun x => mkPost (p_acct (nth i ps dpost)) (p_kind (nth i ps dpost)) (Some (amt_neg x)) None None true true false) rest.
+Proof. exact fill_null_whole_shape. Qed.
+Print Assumptions inferred_postings_are_exactly_these.
+
+(* with two or more commodities left the amounts handed out are the balance's entries, one per commodity, in strictly
+   ascending (base symbol, commodity key) order *)
+Theorem one_inferred_amount_per_commodity_in_order : forall b,
+  distinct_keys b -> (2 <= length b)%nat ->
+  exists amts, fill_amounts (VBal b) = Ok amts /\ Permutation b amts /\ StronglySorted key_lt amts.
+Proof. exact several_commodities_sorted_one_each. Qed.
+Print Assumptions one_inferred_amount_per_commodity_in_order.
+
+(* ---------------------------------------------------------------------------------------------------------------
+   A `~ PERIOD` transaction (Model/XactBase.v): finalized when read, but it has no date and is no xact_t.  The three
+   facts are read from the source as it is now (harness/translators/c02_null_fill.py -> Gen/NullFill.v); the
+   theorems below hold only while they do. *)
+Theorem periodic_transaction_source_facts :
+  src_period_xact_is_finalized = true /\ src_exchange_only_when_dated = true /\ src_null_check_only_for_xact = true.
+Proof. repeat split. Qed.
+Print Assumptions periodic_transaction_source_facts.
+
+Theorem dated_transaction_is_the_c01_model : forall ord cp b ps,
+  finalize_base true true ord cp b ps = finalize ord cp b ps.
+Proof. exact finalize_base_dated_xact. Qed.
+Print Assumptions dated_transaction_is_the_c01_model.
+
+(* its elided amount is filled exactly as in a dated transaction - WITHOUT any condition on the costs (exchange() never
+   runs), and it is accepted *)
+Theorem periodic_elided_posting_is_filled : forall ord cp ps bal i amts,
+  scan_posts ord ps 0 VVoid None = Ok (bal, Some i) ->
+  fill_amounts bal = Ok amts ->
+  finalize_periodic ord cp None ps = Ok (Accepted (fill_null ps i amts)).
+Proof. exact periodic_null_fill. Qed.
+Print Assumptions periodic_elided_posting_is_filled.
+
+Theorem periodic_with_elided_amount_sums_to_zero : forall ord cp ps bal i,
+  scan_posts ord ps 0 VVoid None = Ok (bal, Some i) ->
+  exists ps', finalize_periodic ord cp None ps = Ok (Accepted ps') /\ forall c, bsum ps' c == 0.
+Proof. exact periodic_null_fill_sums_to_zero. Qed.
+Print Assumptions periodic_with_elided_amount_sums_to_zero.
+
+Theorem periodic_single_posting_is_balanced_by_bucket : forall ord cp b p bal amts,
+  scan_posts ord [p] 0 VVoid None = Ok (bal, None) -> bal <> VVoid ->
+  fill_amounts bal = Ok amts ->
+  finalize_periodic ord cp (Some b) [p] =
+  Ok (Accepted (fill_null ([p] ++ [mkPost b PReal None None None false false false]) 1 amts)).
+Proof. exact periodic_single_posting_uses_bucket. Qed.
+Print Assumptions periodic_single_posting_is_balanced_by_bucket.
+
+Theorem periodic_agrees_with_dated : forall ord cp ps bal i amts,
+  wf_costs ps ->
+  scan_posts ord ps 0 VVoid None = Ok (bal, Some i) ->
+  fill_amounts bal = Ok amts ->
+  existsb (fun p => match p_amt p with None => true | Some _ => false end) (fill_null ps i amts) = false ->
+  finalize_periodic ord cp None ps = finalize ord cp None ps.
+Proof. exact periodic_agrees_with_dated_on_null_fill. Qed.
+Print Assumptions periodic_agrees_with_dated.
+
+(* where the two differ (replayed on ledger: `~ Monthly / Expenses:Rent  10 AAA @ 2 AAA / Assets:Checking` forecasts
+   -20 AAA on Assets:Checking; `~ Monthly / (Expenses:Rent)  $500.00 / Assets:Checking` is accepted and forecasts the
+   first posting alone) *)
+Example ex_periodic_differs_from_dated :
+  let aaa q k := mkAmt q 0 k (Some [65; 65; 65]%Z) in
+  let mk a kd amt cost := mkPost a kd amt cost None false false false in
+  let ps1 := [mk [82%Z] PReal (Some (aaa 10 false)) (Some (aaa 20 true)); mk [67%Z] PReal None None] in
+  let ps2 := [mk [82%Z] PVirtual (Some (aaa 5 false)) None; mk [67%Z] PReal None None] in
+  finalize false (fun _ => 0%Z) None ps1 = Err ECostSameComm /\
+  finalize_periodic false (fun _ => 0%Z) None ps1 =
+    Ok (Accepted [mk [82%Z] PReal (Some (aaa 10 false)) (Some (aaa 20 true));
+                  mkPost [67%Z] PReal (Some (aaa (-20) false)) None None true false false]) /\
+  finalize false (fun _ => 0%Z) None ps2 = Err ENullLeft /\
+  finalize_periodic false (fun _ => 0%Z) None ps2 = Ok (Accepted ps2).
+Proof. vm_compute. repeat split. Qed.
+
+(* ---------------------------------------------------------------------------------------------------------------
+   The wording of the error for a second elided amount. *)
+Theorem second_elided_amount_error_is_worded : forall ord cp bucket ps,
+  (2 <= count_nulls ps)%nat ->
+  finalize ord cp bucket ps = Err ETwoNulls /\ exists cls, two_null_error ps = Some cls.
+Proof. exact two_nulls_error_worded. Qed.
+Print Assumptions second_elided_amount_error_is_worded.
+
+Theorem wording_only_for_two_elided_amounts : forall ps cls,
+  two_null_error ps = Some cls -> (2 <= count_nulls ps)%nat.
+Proof. exact two_null_error_only_with_two_nulls. Qed.
+Print Assumptions wording_only_for_two_elided_amounts.
+
+Theorem misspelt_wording_names_an_elided_account : forall ps n,
+  two_null_error ps = Some (TwoNullsMisspelt n) -> In n (null_accts ps) /\ ends_special n = true.
+Proof. exact misspelt_names_an_elided_account. Qed.
+Print Assumptions misspelt_wording_names_an_elided_account.
+
+Theorem plain_wording_means_no_special_last_byte : forall ps,
+  two_null_error ps = Some TwoNullsPlain ->
+  exists a b l, null_accts ps = a :: b :: l /\ ends_special a = false /\ ends_special b = false.
+Proof. exact plain_wording_means_no_special_ending. Qed.
+Print Assumptions plain_wording_means_no_special_last_byte.
+
+(* REQUIRES the byte table of account_ends_with_special_char as it is in the source now *)
+Theorem special_last_byte_is_digit_or_closing_bracket : forall pre c,
+  ends_special (pre ++ [c]) = (((48 <=? c) && (c <=? 57)) || (c =? 41) || (c =? 125) || (c =? 93))%Z.
+Proof. exact ends_special_spec. Qed.
+Print Assumptions special_last_byte_is_digit_or_closing_bracket.
+
+Example ex_two_null_wording :
+  let mk a := mkPost a PReal None None None false false false in
+  two_null_error [mk [65; 49]%Z; mk [66%Z]] = Some (TwoNullsMisspelt [65; 49]%Z) /\
+  two_null_error [mk [65; 49]%Z; mk [66; 93]%Z] = Some (TwoNullsMisspelt [66; 93]%Z) /\
+  two_null_error [mk [65%Z]; mk [66%Z]; mk [67; 50]%Z] = Some TwoNullsPlain /\
+  two_null_error [mk [65%Z]] = None.
+Proof. vm_compute. repeat split. Qed.
